@@ -1,6 +1,7 @@
 """helpers shared by property modules"""
 from __future__ import annotations
 import ast
+from fractions import Fraction
 from ..core import expr as X
 from ..core.report import AnalysisError
 
@@ -473,3 +474,86 @@ def unit_lint(chk, repo, rule, mod, func, sources, label, assume=None):
     chk.ob(rule, f'{label}: every sum, difference and comparison of quantities with known units is dimensionally homogeneous ({n_checked} checked)', not bad, '; '.join(bad[:3]), mod.where(func),
            key=f'{rule}|units|{func.name}', method='unit inference over the statements of the function')
     return n_checked
+
+
+# ----------------------------------------------------------------------------------------------------------------- array twin of every interpreted call
+class ArrayTwin:
+    """Repeats every top-level `it.call` of a check with each symbolic numeric argument handed over as a numpy array (a mutable cell holding one generic element: `x = y` aliases,
+    `x op= c` updates in place, `.copy()` is a new cell; interp.ArrBox) and demands
+       (a) the returned values are, element for element, the values of the scalar call, and
+       (b) every argument array still holds what the caller passed.
+    One obligation per function (all its calls together).  The scalar result is what the check goes on with, so nothing else changes."""
+
+    def __init__(self, chk, rule, it, decider, skip=()):
+        from ..core.interp import ArrBox, concrete
+        from ..core import expr as X
+        self.chk = chk; self.rule = rule; self.it = it; self.d = decider; self.skip = set(skip)
+        self.busy = False; self.res = {}      # (path, fname) -> [ncalls, problems, where]
+        orig = it.call
+        me = self
+
+        def box(v):
+            if isinstance(v, X.Node) and concrete(v) is None:
+                return ArrBox(v)
+            return v
+
+        def same(a, b, path='value'):
+            a = a.v if isinstance(a, ArrBox) else a; b = b.v if isinstance(b, ArrBox) else b
+            if isinstance(a, (tuple, list)) and isinstance(b, (tuple, list)):
+                if len(a) != len(b): return f'{path}: {len(b)} elements instead of {len(a)}'
+                for i, (x, y) in enumerate(zip(a, b)):
+                    r = same(x, y, f'{path}[{i}]')
+                    if r: return r
+                return None
+            if isinstance(a, dict) and isinstance(b, dict):
+                if set(a) != set(b): return f'{path}: keys differ'
+                for k in a:
+                    r = same(a[k], b[k], f'{path}[{k!r}]')
+                    if r: return r
+                return None
+            na = isinstance(a, (X.Node, int, Fraction)) and not isinstance(a, bool); nb = isinstance(b, (X.Node, int, Fraction)) and not isinstance(b, bool)
+            if na and nb:
+                return None if me.d.equal(X.lift(a), X.lift(b)) else f'{path}: array call gives {me.d.describe(X.lift(b), X.lift(a))}'
+            if na != nb:
+                return f'{path}: {type(b).__name__} instead of {type(a).__name__}'
+            return None        # objects, strings, None: not compared
+
+        def call(mod, fnode, args=(), kwargs=None, **k):
+            if me.busy or fnode.name in me.skip or not mod.rel().endswith('.py'):        # C-typed arguments of .pyx functions are values, not arrays
+                return orig(mod, fnode, args, kwargs, **k)
+            me.busy = True
+            try:
+                args = list(args); kwargs = dict(kwargs or {})
+                out = orig(mod, fnode, list(args), dict(kwargs), **k)
+                bargs = [box(v) for v in args]; bkw = {kk: box(v) for kk, v in kwargs.items()}
+                boxes = [(f'argument {i + 1}', o, b) for i, (o, b) in enumerate(zip(args, bargs)) if b is not o] + [(f'argument {kk}', kwargs[kk], bkw[kk]) for kk in kwargs if bkw[kk] is not kwargs[kk]]
+                rec = me.res.setdefault((mod.rel(), fnode.name), [0, [], mod.where(fnode)])
+                if not boxes:
+                    return out
+                old = getattr(it, 'array_mode', False)
+                it.array_mode = True
+                try:
+                    out_a = orig(mod, fnode, bargs, bkw, **k)
+                finally:
+                    it.array_mode = old
+                rec[0] += 1
+                r = same(out, out_a)
+                if r: rec[1].append(r)
+                for lab, o, b in boxes:
+                    if b.v is not o and not me.d.equal(b.v, o):
+                        rec[1].append(f'{lab} is modified in place (the caller\'s array holds {X.show(b.v)[:60]} afterwards)')
+                return out
+            finally:
+                me.busy = False
+        it.call = call
+
+    def finish(self, floor=1):
+        n = 0
+        for (path, fname), (nc, probs, where) in sorted(self.res.items()):
+            if nc == 0: continue
+            n += 1
+            self.chk.ob(self.rule, f'{path}:{fname}: with array arguments every returned value is the scalar value element for element, and the argument arrays are left intact ({nc} calls)',
+                        not probs, '; '.join(list(dict.fromkeys(probs))[:3]), where, key=f'{self.rule}|{path}|{fname}',
+                        method='second interpretation in array mode (arrays as mutable cells) + GF(p^2) PIT')
+        if n < floor:
+            raise AnalysisError(f'array twin for {self.rule}: only {n} functions had array-valued calls')
